@@ -248,7 +248,7 @@ impl World {
         let mut budget = if rng.chance(1, 15) { sum + rng.range(1, 1000) } else { sum - sum.min(rng.range(0, sum / 4 + 1)) };
         for i in 0..n_out {
             let a = rng.pick(&self.pool).clone();
-            let value = if a.kind == "opreturn" {
+            let value = if a.kind == "opreturn" || rng.chance(1, 8) {
                 0
             } else if i + 1 == n_out {
                 budget
